@@ -73,6 +73,12 @@ var ghost struct {
 
 	ioDot string // what the latest strings.DotPrefix call returned (C05: dotted keys of group members)
 
+	ioContains bool // what the latest strings.Contains call answered (C06 padFunc)
+
+	ioBrace    int  // the byte the latest pcAppendByte call of a group serializer wrote (C04 nested objects)
+
+	ioSep      int  // 1 from the separator written before an attribute until its value is written (C04/C05)
+
 	ioKeyed int // 1 once the key of the attribute serializeAttrs is printing has been written (C05)
 
 	ioNow time.Time // what the latest time.Now call returned (C16: the record's own instant)
@@ -1852,9 +1858,9 @@ func lemmaJSONRoundTrip(l Level) bool {
 //@   ensures [C17.frame] unchanged(levelToString) && unchanged(stringToLevel)
 
 //@ func (Level).ShortTag
-//@   props C17
+//@   props C06 C17
 //@   panics [C17.tag-range] when length <= 0 || length >= MaxLengthShortTag
-//@   ensures [C17.tag-len] implies(!(has(shortTagMap, length) && has(shortTagMap[length], level)), len(result) == length)
+//@   ensures [C06.C17.tag-len] implies(!(has(shortTagMap, length) && has(shortTagMap[length], level)), len(result) == length)
 
 //@ func RegisterLevel
 //@   props C17 C01
@@ -2337,17 +2343,24 @@ func specTellable(m LogWriter) bool {
 
 // (hand-written: the attribute serializer and the value switch carry C07/C09 clauses)
 //@ func serializeAttrs
-//@   props C02 C05 C06 C07 C09
+//@   props C02 C04 C05 C06 C07 C09
 //@   ensures [C06.attrs-reset] pc.noColor || ghost.ioColor == 0
 //@   auto
-//@   nokeeps PrintCtx.prefix, PrintCtx.inGroupedMode, ghost.ioKeyed, ghost.ioColor, ghost.ioDot
+//@   nokeeps PrintCtx.prefix, PrintCtx.inGroupedMode, ghost.ioKeyed, ghost.ioSep, ghost.ioColor, ghost.ioDot
 //@   keeps PrintCtx.prefix except pc
 //@   keeps PrintCtx.inGroupedMode except pc
 //@   requires [C09.ungrouped] !pc.inGroupedMode
 //@   ensures [C05.C09.prefix] same(pc.prefix, old(pc.prefix)) && !pc.inGroupedMode
-//@   at call slices.SortStableFunc[github.com/hedzr/logg/slog.Attrs github.com/hedzr/logg/slog.Attr] assert [C07.sorted] callee.x == kvps
+//@   at call slices.SortStableFunc[github.com/hedzr/logg/slog.Attrs github.com/hedzr/logg/slog.Attr] assert [C06.C07.sorted] callee.x == kvps
+//@   at call slices.SortStableFunc[github.com/hedzr/logg/slog.Attrs github.com/hedzr/logg/slog.Attr] effect local.sorted = 1
+//@   at call (Attr).Key assert [C06.C07.sorted-before-print] implies(pc.dedupeAttrs, local.sorted == 1)
 //@   at call github.com/hedzr/logg/slog.dedupeSlice[github.com/hedzr/logg/slog.Attrs github.com/hedzr/logg/slog.Attr] assert [C07.unique] callee.x == kvps
 //@   at call (Attr).Key effect ghost.ioKeyed = 0
+//@   at call (*PrintCtx).pcAppendComma effect ghost.ioSep = 1
+//@   at call (*PrintCtx).pcAppendStringKey assert [C04.C05.separated] implies(pc.noColor, ghost.ioSep == 1)
+//@   at call (*PrintCtx).appendValue effect ghost.ioSep = 0
+//@   at maybe-call (*PrintCtx).appendTimestamp effect ghost.ioSep = 0
+//@   at maybe-call (*PrintCtx).appendTimestamp assert [C04.C05.time-exact] key == timestampFieldName
 //@   at call (*PrintCtx).pcAppendStringKey effect ghost.ioKeyed = 1
 //@   at call github.com/hedzr/logg/slog/internal/strings.DotPrefix assert [C05.dotted-args] same(callee.leaf, ghost.ioKey1) && len(callee.prefix) == 1 && same(callee.prefix[0], prefix)
 //@   at call (*PrintCtx).appendValue assert [C05.dotted] pc.jsonMode || same(pc.prefix, ghost.ioDot)
@@ -2359,7 +2372,7 @@ func specTellable(m LogWriter) bool {
 //@   at maybe-call (*PrintCtx).pcAppendStringValue assert [C05.value-quoted] implies(!s.jsonMode, same(callee.str, "<nil>"))
 //@   at maybe-call (*PrintCtx).Write assert [C05.value-quoted] false
 //@   auto
-//@   nokeeps PrintCtx.prefix, PrintCtx.inGroupedMode, ghost.ioKeyed, ghost.ioColor, ghost.ioDot
+//@   nokeeps PrintCtx.prefix, PrintCtx.inGroupedMode, ghost.ioKeyed, ghost.ioSep, ghost.ioColor, ghost.ioDot
 //@   keeps PrintCtx.prefix except s
 //@   keeps PrintCtx.inGroupedMode except s
 //@   requires [C09.ungrouped] !s.inGroupedMode
@@ -2444,7 +2457,7 @@ func specTellable(m LogWriter) bool {
 //@ func (*kvp).SerializeValueTo
 //@   props C02 C09
 //@   auto
-//@   nokeeps PrintCtx.prefix, PrintCtx.inGroupedMode, ghost.ioKeyed, ghost.ioColor, ghost.ioDot
+//@   nokeeps PrintCtx.prefix, PrintCtx.inGroupedMode, ghost.ioKeyed, ghost.ioSep, ghost.ioColor, ghost.ioDot
 //@   keeps PrintCtx.prefix except pc
 //@   keeps PrintCtx.inGroupedMode except pc
 //@   ensures [C09.ungrouped] !pc.inGroupedMode
@@ -2453,17 +2466,21 @@ func specTellable(m LogWriter) bool {
 //@   props C02 C05 C07 C09
 //@   at call serializeAttrs assert [C07.group-sorted] callee.pc == pc && callee.kvps == s.items
 //@   auto
-//@   nokeeps PrintCtx.prefix, PrintCtx.inGroupedMode, ghost.ioKeyed, ghost.ioColor, ghost.ioDot
+//@   nokeeps PrintCtx.prefix, PrintCtx.inGroupedMode, ghost.ioKeyed, ghost.ioSep, ghost.ioColor, ghost.ioDot
 //@   keeps PrintCtx.prefix except pc
 //@   keeps PrintCtx.inGroupedMode except pc
 //@   requires [C09.ungrouped] !pc.inGroupedMode
 //@   ensures [C05.C09.prefix] same(pc.prefix, old(pc.prefix)) && !pc.inGroupedMode
 
+// JSON: the members of a group are a nested object - '{' goes out before the members, '}' is the last byte written
 //@ func (Attrs).SerializeValueTo
-//@   props C02 C05 C07 C09
+//@   props C02 C04 C05 C07 C09
+//@   at call (*PrintCtx).pcAppendByte effect ghost.ioBrace = callee.b
+//@   at call serializeAttrs assert [C04.group-open] implies(pc.jsonMode, ghost.ioBrace == 123)
+//@   ensures [C04.group-close] implies(pc.jsonMode, ghost.ioBrace == 125)
 //@   at call serializeAttrs assert [C07.group-sorted] callee.pc == pc && callee.kvps == s
 //@   auto
-//@   nokeeps PrintCtx.prefix, PrintCtx.inGroupedMode, ghost.ioKeyed, ghost.ioColor, ghost.ioDot
+//@   nokeeps PrintCtx.prefix, PrintCtx.inGroupedMode, ghost.ioKeyed, ghost.ioSep, ghost.ioColor, ghost.ioDot
 //@   keeps PrintCtx.prefix except pc
 //@   keeps PrintCtx.inGroupedMode except pc
 //@   requires [C09.ungrouped] !pc.inGroupedMode
@@ -2480,6 +2497,7 @@ func specTellable(m LogWriter) bool {
 //@   at call (context.Context).Value assert [C07.ctx-key] callee.self == ctx && callee.key == k
 //@   loop 1 invariant len(*kvps) >= old(len(*kvps)) && forall(j, 0, old(len(*kvps)), (*kvps)[j] == old((*kvps)[j]))
 //@   loop 1 invariant implies(rangeindex == -1, len(*kvps) == old(len(*kvps)))
+
 
 
 
@@ -2524,11 +2542,6 @@ func specTellable(m LogWriter) bool {
 //@ func itoaS[int]
 //@   props C02
 //@   auto
-
-//@ func (*PrintCtx).appendBytes
-//@   props C02 C04 C05 C06
-//@   auto
-//@   ensures [C05.quoted] grown(s.buf, old(s.buf)) && len(s.buf) >= old(len(s.buf)) + 2 && forall(k, 0, old(len(s.buf)), s.buf[k] == old(s.buf[k])) && s.buf[old(len(s.buf))] == 34 && s.buf[len(s.buf)-1] == 34 && forall(k, old(len(s.buf)), len(s.buf), s.buf[k] >= 32 && s.buf[k] != 127) && forall(k, old(len(s.buf))+1, len(s.buf)-1, implies(s.buf[k] == 34, s.buf[k-1] == 92))
 
 //@ func (*PrintCtx).appendStringSlice
 //@   props C02
@@ -2614,19 +2627,11 @@ func specTellable(m LogWriter) bool {
 //@   props C02
 //@   auto
 
-//@ func ftoaS[float32]
-//@   props C02
-//@   auto
-
 //@ func ftoasimple[float32]
 //@   props C02
 //@   auto
 
 //@ func floatSliceTo[float64]
-//@   props C02
-//@   auto
-
-//@ func ftoaS[float64]
 //@   props C02
 //@   auto
 
